@@ -610,3 +610,4 @@ PROPS["C15"]._k = PROPS["C15"]._k + [props_lexer.C18_UNITS[1]] + props_lexer.C03
 PROPS["C09"]._v = PROPS["C09"]._v + [V_STRLIT]       # `\xHH` denotes the character with that code (escape decoding)
 PROPS["C18"]._v = PROPS["C18"]._v + [V_INTERP]       # column of an error inside an interpolation slot (characters, not bytes)
 PROPS["C18"]._v = PROPS["C18"]._v + [u for u in ALL_V if u.name == "render"]    # a context wrapper the renderer does not peel loses the position
+PROPS["C09"]._v = PROPS["C09"]._v + [V_MAIN]         # a syntax error is reported where the unexpected token starts, whatever follows it
